@@ -61,7 +61,7 @@ type qCCRec struct {
 }
 
 var cpUniverse = map[string][]string{
-	"CCTP": {"0", "1", "2"}, "HYP": {"1", "2", "3"}, "INT": {"noble"}, "IBC": {"channel-0", "channel-1"},
+	"CCTP": {"0", "1", "2"}, "HYP": {"1", "2", "3"}, "INT": {"noble"}, "IBC": {"channel-0", chan1ID},
 }
 
 // pauseQueries asks every pause / parameter query and returns the answers in abstract form.
